@@ -166,8 +166,21 @@ def gen_rterm(rng, sp, depth, p_foreign):
                 return ["field", ["tab", o[1], "s2" if o[2] is None else None, o[3]], rng.choice(["o", "p"])]
             return ["field", tab(rng, foreign=rng.random() < 0.6), rng.choice(["f", "o"])]
         return ["field", rng.choice(own), rng.choice(["o", "p"])]
+    if rng.random() < 0.18:
+        # an aggregate next to a field-less leaf (interval literal, parameter, wrapped value, NULL, literal), either order,
+        # '+' or '-', bare or inside a function: abstaining leaves keep the term an aggregate, the others do not
+        from . import impl
+        agg = ["fn", "agg", [fld()] if rng.random() < 0.8 else []]
+        leaf = ["leaf", rng.choice(sorted(impl.LEAF_VOTES))]
+        t = ["arith", agg, leaf] if rng.random() < 0.5 else ["arith", leaf, agg]
+        if rng.random() < 0.3:
+            t.append("-")
+        return ["fn", "plain", [t]] if rng.random() < 0.3 else t
     if depth <= 0 or r < 0.35:
         q = rng.random()
+        if q > 0.93:
+            from . import impl
+            return ["leaf", rng.choice(sorted(impl.LEAF_VOTES))]
         if q < 0.45:
             return fld()
         if q < 0.6:
